@@ -74,7 +74,33 @@ func (s *sim) precond(a Action) error {
 		if !up {
 			return fmt.Errorf("not up")
 		}
-	case "tmpl", "del_cache", "sleep":
+	case "tmpl":
+		if a.Via != "" && a.Via != "link" {
+			return fmt.Errorf("unknown way of installing a template")
+		}
+	case "del_cache", "sleep":
+	case "damage_cache":
+		if up || a.Mask < 1 || a.N < 0 {
+			return fmt.Errorf("only between boots, one base64 character")
+		}
+		switch a.Which {
+		case "head", "issuer", "validity", "subject", "spki", "ext", "tail":
+			if a.Mask > 128 || a.Mask&(a.Mask-1) != 0 {
+				return fmt.Errorf("one bit of a byte")
+			}
+		case "key":
+			if a.Mask > 63 {
+				return fmt.Errorf("one base64 character")
+			}
+		default:
+			return fmt.Errorf("unknown section")
+		}
+		if s.cacheChain {
+			return fmt.Errorf("not a cache file the program made")
+		}
+		if _, err := os.Stat(s.cachePath); err != nil {
+			return fmt.Errorf("no cache file")
+		}
 	case "regen_cache":
 	case "chain_cache":
 		if up {
@@ -118,6 +144,21 @@ func (s *sim) precond(a Action) error {
 		if a.K == "open_io" && a.S != len(s.sess) {
 			return fmt.Errorf("session exists")
 		}
+		if a.Flood < 0 || a.Flood > 1024 || a.Flood > 0 && (a.Piece < 1 || a.Piece > 512 || a.K == "open_in" || a.Which == "bad" || a.Early) {
+			return fmt.Errorf("bad flood")
+		}
+		if a.Early {
+			if a.S != len(s.sess) {
+				return fmt.Errorf("an early reset is a session of its own")
+			}
+			if live := s.liveSession(); live != nil {
+				if a.K != "open_io" || a.Which != "bad" {
+					return fmt.Errorf("with a shell attached only a bidirectional attempt is refused whatever its ID")
+				}
+			} else if a.Which == "bad" || len(s.ich) != 0 {
+				return fmt.Errorf("lines are waiting for the next shell")
+			}
+		}
 		if a.K != "open_io" && a.S == len(s.sess) && a.ID == "" {
 			return fmt.Errorf("a new session needs an ID")
 		}
@@ -142,6 +183,9 @@ func (s *sim) precond(a Action) error {
 		ss := s.sessionN(a.S)
 		if !up || ss == nil || ss.closed || (ss.out == nil && ss.io == nil) {
 			return fmt.Errorf("no output stream")
+		}
+		if a.Flood < 0 || a.Flood > 1024 || a.Flood > 0 && (a.Piece < 1 || a.Piece > 512) {
+			return fmt.Errorf("bad flood")
 		}
 	case "reset_lines":
 		ss := s.sessionN(a.S)
@@ -200,8 +244,16 @@ func (s *sim) apply(a Action) {
 	case "del_cache":
 		_ = os.Remove(s.cachePath)
 		s.cachePin = ""
+		s.cacheBad, s.cacheOrig, s.cacheChain = false, nil, false
 		s.fault("cache_deleted")
+	case "damage_cache":
+		s.damageCache(a)
 	case "tmpl":
+		if a.Via == "link" {
+			s.tmplState, s.tmplK = a.T, a.N
+			s.linkTemplate(a)
+			break
+		}
 		_ = os.RemoveAll(s.tmplPath)
 		s.tmplState, s.tmplK = a.T, a.N
 		switch a.T {
@@ -225,7 +277,7 @@ func (s *sim) apply(a Action) {
 		if s.cfg.CoarseDisk {
 			// a file system with coarse time stamps (or cp -p, rsync -t): every
 			// version of the file carries the same modification time
-			t := time.Date(2024, 9, 19, 12, 0, 0, 0, time.UTC)
+			t := time2024
 			_ = os.Chtimes(s.tmplPath, t, t)
 			s.probes["template_same_mtime"]++
 		}
@@ -250,12 +302,14 @@ func (s *sim) apply(a Action) {
 			return
 		}
 		s.cachePin = pin
+		s.cacheBad, s.cacheOrig, s.cacheChain = false, nil, true
 		s.fault("cache_holds_a_chain")
 	case "regen_cache":
 		// another instance (or the operator) replaces the cache file while this
 		// server is running: what is served must stay what is advertised
 		_ = os.Remove(s.cachePath)
 		s.cachePin = ""
+		s.cacheBad, s.cacheOrig, s.cacheChain = false, nil, false
 		if cert, err := sstls.GetCertificate("", nil, nil, 0, s.cachePath); err == nil && cert.Leaf != nil {
 			h := sha256.Sum256(cert.Leaf.RawSubjectPublicKeyInfo)
 			s.cachePin = base64.StdEncoding.EncodeToString(h[:])
@@ -276,6 +330,10 @@ func (s *sim) apply(a Action) {
 		c := ss.out
 		if ss.io != nil {
 			c = ss.io
+		}
+		if a.Flood > 0 {
+			s.sendFlood(ss, c, a)
+			break
 		}
 		if err := c.write(chunk(a.B)); err == nil {
 			ss.sentOut = append(ss.sentOut, a.B...)
@@ -330,6 +388,8 @@ func (s *sim) apply(a Action) {
 		ss.closing = true
 	}
 }
+
+var time2024 = time.Date(2024, 9, 19, 12, 0, 0, 0, time.UTC)
 
 func (s *sim) fault(n string) { s.faults[n]++; s.nontrivial = true }
 
@@ -647,6 +707,50 @@ func (s *sim) open(a Action) {
 		ss.id = id
 	}
 	id = spell(id, a.N)
+	hold := a.Flood > 0 || a.Early
+	readyBefore, goneBefore := s.boot.ready, s.boot.gone
+	if hold {
+		// the handler is held before it starts: what the client does next
+		// happens before the server has sent anything
+		s.mu.Lock()
+		s.holdEntry = true
+		s.mu.Unlock()
+	}
+	defer func() {
+		if !hold {
+			return
+		}
+		s.settle()
+		s.mu.Lock()
+		held := len(s.eparks)
+		s.mu.Unlock()
+		if held > 0 {
+			s.probes["handler_held_before_start"]++
+		}
+		if a.Flood > 0 {
+			if _, _, _, done, _ := c.snapshot(); !done && held > 0 {
+				s.probes["flood_before_response_header"]++
+			}
+			s.sendFlood(ss, c, a)
+		}
+		if a.Early {
+			c.closeConn(true)
+			ss.closing, ss.noJudge = true, true
+			s.settle() // (the server notices, or does not, before the handler runs)
+			if held > 0 {
+				s.fault("conn_reset_before_handler_ran")
+			} else {
+				s.fault("conn_reset_right_after_request")
+			}
+		}
+		s.releaseEntries()
+		if a.Early {
+			// a stream that comes and goes within the step; which of its notices
+			// appear is the broker's business, the books of whole shells stay even
+			s.settle()
+			s.boot.gone = goneBefore + (s.boot.ready - readyBefore)
+		}
+	}()
 	switch a.K {
 	case "open_in":
 		ss.in = c
@@ -958,15 +1062,23 @@ func (s *sim) checkTraffic() {
 		}
 	}
 	// output: plain lines displayed since ready
-	var shown []byte
-	for i := ss.plainFrom; i < len(s.lines); i++ {
-		if s.lines[i].Plain {
-			shown = append(shown, s.lines[i].Line...)
+	if ss.shownTo < ss.plainFrom {
+		ss.shownTo = ss.plainFrom
+	}
+	for ; ss.shownTo < len(s.lines); ss.shownTo++ {
+		if s.lines[ss.shownTo].Plain {
+			ss.shown = append(ss.shown, s.lines[ss.shownTo].Line...)
 		}
 	}
+	shown := ss.shown
 	if !bytes.Equal(shown, ss.sentOut) {
+		d := 0
+		for d < len(shown) && d < len(ss.sentOut) && shown[d] == ss.sentOut[d] {
+			d++
+		}
 		s.violate("C03", "exact-over-http", "output sent by the shell is not displayed byte-exact at the quiescent point",
-			"shell sent %d bytes %q, displayed %d bytes %q", len(ss.sentOut), clip(ss.sentOut), len(shown), clip(shown))
+			"shell sent %d bytes %q, displayed %d bytes %q; they differ from offset %d on: sent %q, displayed %q", len(ss.sentOut), clip(ss.sentOut), len(shown), clip(shown),
+			d, clip(ss.sentOut[d:]), clip(shown[d:]))
 		return
 	}
 	if len(shown) > 0 {
